@@ -187,6 +187,19 @@ func main() {
 					n.Forget()
 					continue
 				}
+				if replay != nil {
+					d, _ := n.Chain.GetBlock(B.Height)
+					msg := n.Client.NewMessage("execs", types.EventDelBlock, d)
+					n.Client.Send(msg, true)
+					resp, _ := n.Client.Wait(msg)
+					if set, ok := resp.GetData().(*types.LocalDBSet); ok {
+						for _, kv := range set.KV {
+							fmt.Printf("  DEL %q = %x (nil=%v)\n", kv.Key, kv.Value, kv.Value == nil)
+						}
+					} else {
+						fmt.Println("  DEL reply", resp.GetData())
+					}
+				}
 				withB := lidx.LocalDump(n)
 				viewWithB := lidx.LocalView(n, env, probe)
 				// what B changed (vacuity guard and the distinct class)
